@@ -448,11 +448,102 @@ fn ctor(case: &Value) -> Value {
            "mem": mem, "flush_ok": flush_ok, "reload": reload, "files_after_flush": files})
 }
 
+/// The FIRST flush: the cache file does not exist yet; one writer flushes a large store while a reader spins on
+/// load (and a raw read) and a second first-flusher runs (a thread and, optionally, a process).  Repeated over fresh
+/// paths.  A load during the race may say "not found", never "cannot parse".
+fn first_flush_race(case: &Value) -> Value {
+    let trials = case["trials"].as_u64().unwrap_or(10);
+    let peers = case["peers"].as_u64().unwrap_or(300);
+    let procs = case["procs"].as_u64().unwrap_or(1);
+    let (mut loads, mut parse_failures, mut not_found, mut raw_bad, mut flush_failed, mut final_bad) = (0u64, 0u64, 0u64, 0u64, 0u64, 0u64);
+    let mut first_failure = String::new();
+    for t in 0..trials {
+        let dir = tempfile::tempdir().unwrap();
+        let path: PathBuf = dir.path().join("first_cache.json");
+        let cfg = BootstrapCacheConfig::empty().with_cache_path(&path);
+        let stop = Arc::new(AtomicBool::new(false));
+        let reader = {
+            let (stop, cfg, path) = (stop.clone(), cfg.clone(), path.clone());
+            std::thread::spawn(move || {
+                let (mut l, mut pf, mut nf, mut rb) = (0u64, 0u64, 0u64, 0u64);
+                let mut ff = String::new();
+                while !stop.load(Ordering::Relaxed) {
+                    l += 1;
+                    if !path.exists() {
+                        nf += 1;
+                        continue;
+                    }
+                    match BootstrapCacheStore::load_cache_data(&cfg) {
+                        Ok(_) => {}
+                        Err(e) => {
+                            let m = e.to_string();
+                            if m.contains("No such file") || m.contains("not found") {
+                                nf += 1;
+                            } else {
+                                pf += 1;
+                                if ff.is_empty() {
+                                    ff = m;
+                                }
+                            }
+                        }
+                    }
+                    if let Ok(txt) = std::fs::read_to_string(&path) {
+                        if serde_json::from_str::<Value>(&txt).is_err() {
+                            rb += 1;
+                        }
+                    }
+                }
+                (l, pf, nf, rb, ff)
+            })
+        };
+        let mut hs = Vec::new();
+        for w in 0..2u64 {
+            let path = path.clone();
+            hs.push(std::thread::spawn(move || writer(&path, 10 * t + w + 1, 1, peers, 1500)));
+        }
+        let exe = std::env::current_exe().unwrap();
+        let mut children = Vec::new();
+        for p in 0..procs {
+            children.push(
+                std::process::Command::new(&exe)
+                    .args(["writer", path.to_str().unwrap(), &(500 + 10 * t + p).to_string(), "1", &peers.to_string(), "1500"])
+                    .stdout(std::process::Stdio::piped())
+                    .spawn()
+                    .unwrap(),
+            );
+        }
+        for h in hs {
+            let (_, f) = h.join().unwrap();
+            flush_failed += f;
+        }
+        for c in children {
+            let o = c.wait_with_output().unwrap();
+            let v: Value = serde_json::from_slice(&o.stdout).unwrap_or(json!({"ok": 0, "failed": 1}));
+            flush_failed += v["failed"].as_u64().unwrap_or(0);
+        }
+        stop.store(true, Ordering::Relaxed);
+        let (l, pf, nf, rb, ff) = reader.join().unwrap();
+        loads += l;
+        parse_failures += pf;
+        not_found += nf;
+        raw_bad += rb;
+        if first_failure.is_empty() {
+            first_failure = ff;
+        }
+        if BootstrapCacheStore::load_cache_data(&cfg).is_err() {
+            final_bad += 1;
+        }
+    }
+    json!({"trials": trials, "loads": loads, "parse_failures": parse_failures, "not_found": not_found, "raw_bad": raw_bad,
+           "flush_failed": flush_failed, "final_bad": final_bad, "first_failure": first_failure})
+}
+
 fn run(case: &Value) -> Value {
     match case["op"].as_str().unwrap() {
         "history" => history(case),
         "concurrent" => concurrent(case),
         "ctor" => ctor(case),
+        "first_flush_race" => first_flush_race(case),
         // the Multiaddr parser as an oracle: protocol lists of the given texts
         "parse" => Value::Array(
             case["addrs"].as_array().unwrap().iter()
